@@ -1,6 +1,6 @@
 (* C14 correspondence: histories of operations over one source schema, run on
    the store model and compared with the implementation's observe dumps. *)
-From PyGql Require Import Run.Driver Schema.StoreModel.
+From PyGql Require Import Run.Driver Schema.StoreModel Schema.StoreExtend.
 Local Open Scope N_scope.
 
 Inductive stepc :=
@@ -10,7 +10,7 @@ Inductive stepc :=
        (args evs dirs : list str)                     (* the hidden elements *)
 | SCamel (on : N) (inplace : bool)
 | SSdir (on : N) (inplace : bool)
-| SImport (on : N) (payload : option (heap * schema))  (* extend_schema: result taken from the implementation *)
+| SExtend (on : N) (doc : extdoc)                       (* extend_schema(target, document) *)
 | SReplace (on : N) (rebuild same : list str)
 | SSwap (on : N) (names : list str).                   (* schema.types[n] = rebuilt; fix_type_references *)
 
@@ -100,10 +100,7 @@ Definition run_op (camel : str -> str) (m : mem) (target : schema) (c : stepc)
       if ip then inpl (apply_schema_directives fuel14 sd_names sd_run m target)
       else fresh (do c <- clone fuel14 m target;
                   apply_schema_directives fuel14 sd_names sd_run (fst c) (snd c))
-  | SImport _ None => Rejected 8 0
-  | SImport _ (Some (h, sc)) =>
-      let top := fold_left (fun acc e => N.max acc (N.succ (fst e))) h (m_next m) in
-      Ok (MkMem (h ++ m_heap m) top, None, Some sc)
+  | SExtend _ doc => fresh (extend fuel14 m target doc)
   | SReplace _ rebuild same =>
       fresh (do c <- clone fuel14 m target;
              let (m1, ups) := rebuild_entries (fst c) (s_types (snd c)) rebuild in
@@ -122,7 +119,7 @@ Definition run_op (camel : str -> str) (m : mem) (target : schema) (c : stepc)
 Definition step_on (c : stepc) : N :=
   match c with
   | SSkip => 0
-  | SClone on | SVis on _ _ _ _ _ _ _ | SCamel on _ | SSdir on _ | SImport on _ | SReplace on _ _
+  | SClone on | SVis on _ _ _ _ _ _ _ | SCamel on _ | SSdir on _ | SExtend on _ | SReplace on _ _
   | SSwap on _ => on
   end.
 
@@ -183,7 +180,11 @@ Definition step (camel : str -> str) (acc : store * bool) (x : stepc * status * 
               end
           | Rejected _ _ =>
               let '(st3, _, good) := check_dumps st None dumps in
-              (push st3 None, ok && good && match status with StRejected => true | _ => false end)
+              (push st3 None, ok && good && match status, c with
+                                            | StRejected, _ => true
+                                            | StInvalid, SExtend _ _ => true   (* both refuse; validate() is not modelled *)
+                                            | _, _ => false
+                                            end)
           | _ => (push st None, false)
           end
       end
